@@ -98,11 +98,13 @@ func VerifC13_routeConf() {
 					documented = false
 				}
 			}
-			clusterShapes := 3
-			if i == 0 && nb == 2 && vrt.Param("FULL2", 0) == 0 {
-				clusterShapes = 2 // the first of two rules always has a ClusterName (index 1 or 2 below)
+			// cluster shapes: 0 no ClusterName, 1 c1, 2 ADVANCED_MODE
+			first, count := 0, 3
+			if nb == 2 && vrt.Param("FULL2", 0) == 0 {
+				// reduced two-rule case: first rule c1 or ADVANCED_MODE, second rule c1
+				first, count = 1, 2-i
 			}
-			switch 3 - clusterShapes + vrt.Choose("basic-cluster", clusterShapes) {
+			switch first + vrt.Choose("basic-cluster", count) {
 			case 0:
 				documented = false // no ClusterName
 			case 1:
